@@ -157,7 +157,7 @@ inline std::string opText(const Op& o) {
     case SET_KEY: return p + "[\"" + vis(o.key) + "\"" + (o.b == 1 ? "linked" : "") + "]=" + kScalarName[o.a];
     case SET_KEY2: return p + "[\"" + vis(o.key) + "\"][\"" + vis(o.key2) + "\"]=" + kScalarName[o.a];
     case REMOVE_INDEX: return p + (o.b ? ".remove(begin+" : ".remove(") + std::to_string(o.a) + ")";
-    case REMOVE_KEY: return p + ".remove(\"" + vis(o.key) + "\")";
+    case REMOVE_KEY: return p + (o.b ? ".remove(iterator at \"" : ".remove(\"") + vis(o.key) + "\")";
     case CLEAR_VALUE: return p + ".clear()";
     case SET_VARIANT: return p + ".set(" + p2 + ")";
     case ADD_VARIANT: return p + ".add(" + p2 + ")";
@@ -609,7 +609,16 @@ inline std::string realApply(Real& R, const Op& o) {
       }
       return "";
     case REMOVE_KEY:
-      if (atRoot) d.remove(o.key);
+      if (o.b == 1) {  // through JsonObject::remove(iterator)
+        JsonObject obj = resolve(d, o.path).as<JsonObject>();
+        for (JsonObject::iterator it = obj.begin(); it != obj.end(); ++it) {
+          JsonString k = it->key();
+          if (std::string(k.c_str(), k.size()) == o.key) {
+            obj.remove(it);
+            break;
+          }
+        }
+      } else if (atRoot) d.remove(o.key);
       else resolve(d, o.path).remove(o.key);
       return "";
     case CLEAR_VALUE:
@@ -732,7 +741,10 @@ inline void enabledOps(const World& W, const Alphabet& AB, std::vector<Op>& out)
         o.code = REMOVE_INDEX; o.a = 0; out.push_back(o);
       }
       if (t->kind == MValue::Obj) {
-        for (auto& k : std::vector<std::string>{"a", "b", "k", "zz"}) { o.code = REMOVE_KEY; o.key = k; out.push_back(o); }
+        for (auto& k : std::vector<std::string>{"a", "b", "k", "zz"}) { o.code = REMOVE_KEY; o.key = k; o.b = 0; out.push_back(o); }
+        if (AB.full)
+          for (auto& kv : t->o) { o.code = REMOVE_KEY; o.key = kv.first; o.b = 1; out.push_back(o); }
+        o.b = 0;
         o.key.clear();
       }
       o.a = 0;
